@@ -88,6 +88,26 @@ def compare_models(m1, m2, predict):
     return bad
 
 
+def formula_differences(m, pred):
+    """the prediction of a (reloaded) daily model against the documented piecewise formula evaluated from its JSON parameters alone (unsmoothed and
+    smoothed shapes; every row that has a prediction)"""
+    import contracts.spec_curve as S
+    doc = json.loads(m.to_json())
+    bad = []
+    p = pred.dropna(subset=["predicted"])
+    for key, grp in p.groupby("model_split"):
+        c = doc["submodels"][key]["coefficients"]
+        g = lambda k: 0.0 if c.get(k) is None else float(c[k])  # noqa: E731
+        want = np.array([float(S.documented(c["model_type"], g("hdd_bp"), g("hdd_beta"), g("hdd_k"), g("cdd_bp"), g("cdd_beta"), g("cdd_k"), c["intercept"], float(t)))
+                         for t in grp["temperature"].astype(float).values])
+        got = grp["predicted"].astype(float).values
+        if not np.allclose(got, want, rtol=1e-9, atol=1e-9):
+            i = int(np.argmax(np.abs(got - want)))
+            bad.append(f"sub-model {key}: predicted {got[i]!r} at {float(grp['temperature'].values[i])!r} F, the formula from the stored parameters gives {want[i]!r} "
+                       f"({int((~np.isclose(got, want, rtol=1e-9, atol=1e-9)).sum())} days differ)")
+    return bad
+
+
 def _first_diff(a, b):
     for i, (x, y) in enumerate(zip(a, b)):
         if x != y:
@@ -128,6 +148,8 @@ def replay(case):
         except Exception as e:  # noqa
             return {"ok": False, "differences": [f"from_json(to_json()) raised {type(e).__name__}: {str(e)[:300]}"]}
         bad = compare_models(m1, m2, predict)
+        if case["family"].startswith("daily"):
+            bad += formula_differences(m2, predict(m2))
         return {"ok": not bad, "differences": bad}
     raise ValueError(kind)
 
@@ -173,6 +195,37 @@ def fitted(family, profile="current"):
         else:
             m = em.HourlyModel().fit(base, ignore_disqualification=True)
         out = (m, lambda mm: mm.predict(rep, ignore_disqualification=True), em.HourlyModel)
+    elif family == "hourly_supplemental":
+        # a profile with a supplemental time-series column whose NAME has upper-case letters (the settings keep names as given)
+        meter, temp, meta = load_sample("il-electricity-cdd-hdd-hourly")
+        df = pd.concat([meter.rename(columns={"value": "observed"}), temp.rename("temperature")], axis=1).dropna()
+        df["Humidity"] = 40 + 25 * np.sin(np.arange(len(df)) / 37.0)
+        base = em.HourlyBaselineData(df.iloc[: 24 * 120], is_electricity_data=True, **({}))
+        rep = em.HourlyReportingData(df.iloc[24 * 120: 24 * 160], is_electricity_data=True)
+        m = em.HourlyModel(settings={"supplemental_time_series_columns": ["Humidity"], "seed": 4}).fit(base, ignore_disqualification=True)
+        out = (m, lambda mm: mm.predict(rep, ignore_disqualification=True), em.HourlyModel)
+    elif family == "daily_netmetered":
+        # a net-metered (rooftop solar) site: negative readings in the baseline, a fitted curve that goes below zero in the reporting period
+        rng = np.random.default_rng(12)
+        idx = pd.date_range("2021-01-01", periods=365 * 2, freq="D", tz="America/Chicago")
+        T = 55 + 25 * np.sin((np.arange(len(idx)) - 105) / 365 * 2 * np.pi) + rng.normal(0, 3, len(idx))
+        obs = 4.0 + 0.5 * np.maximum(48 - T, 0) - 0.7 * np.maximum(T - 60, 0) + rng.normal(0, 0.8, len(idx))     # exports grow with the summer sun
+        df = pd.DataFrame({"temperature": T, "observed": obs}, index=idx)
+        data = em.DailyBaselineData(df.iloc[:365], is_electricity_data=True)
+        rep = em.DailyReportingData(df.iloc[365:], is_electricity_data=True)
+        m = em.DailyModel().fit(data, ignore_disqualification=True)
+        out = (m, lambda mm: mm.predict(rep, ignore_disqualification=True), em.DailyModel)
+    elif family == "caltrack_hourly_partial":
+        # a baseline that covers only some calendar months (January to early April), a reporting period WITH usage that reaches uncovered months
+        from opendsm.eemeter.models.hourly_caltrack.wrapper import HourlyModel as CT
+        from opendsm.eemeter.models.hourly_caltrack.data import HourlyBaselineData as CTB, HourlyReportingData as CTR
+        meter, temp, meta = load_sample("il-electricity-cdd-hdd-hourly")
+        df = pd.concat([meter.rename(columns={"value": "observed"}), temp.rename("temperature")], axis=1).dropna()
+        df = df.loc["2016-01-01":]
+        base = CTB(df.iloc[: 24 * 100].copy(), is_electricity_data=True)
+        rep = CTR(df.iloc[24 * 100: 24 * 190].copy(), is_electricity_data=True)
+        m = CT().fit(base)
+        out = (m, lambda mm: mm.predict(rep), CT)
     elif family == "caltrack_hourly":
         from opendsm.eemeter.models.hourly_caltrack.wrapper import HourlyModel as CT
         from opendsm.eemeter.models.hourly_caltrack.data import HourlyBaselineData as CTB, HourlyReportingData as CTR
@@ -204,7 +257,7 @@ def run(tier="quick", seed=0):
                     case = {"kind": "params", "family": family, "shape": shape, "split": split, "warn": warn}
                     _one(b, case, (family, shape, split, warn))
     fits = [("daily", "current"), ("hourly", "current"), ("hourly_solar", "current"), ("hourly_solar_reordered", "current"), ("daily", "legacy"), ("billing", "current"),
-            ("caltrack_hourly", "current")]
+            ("caltrack_hourly", "current"), ("hourly_supplemental", "current"), ("daily_netmetered", "current"), ("caltrack_hourly_partial", "current")]
     # developer-mode profiles whose overrides include options set to None (stored as null)
     for family in ("daily", "billing"):
         case = {"kind": "params", "family": family, "shape": "hdd_tidd_cdd_smooth", "split": "season2", "warn": False,
